@@ -153,11 +153,13 @@ pub struct Gen {
     pub inexact_indices: bool,
     pub exact_indices: bool,
     pub allow_defer_remap: bool,
+    /// per-run probability that a compaction defers the index remap (swarm knob, C13 only)
+    pub defer_rate: f64,
 }
 
 impl Gen {
     pub fn new() -> Self {
-        Self { next_k: 0, next_img: 1, opno: 0, next_col: 0, inexact_indices: true, exact_indices: true, allow_defer_remap: false }
+        Self { next_k: 0, next_img: 1, opno: 0, next_col: 0, inexact_indices: true, exact_indices: true, allow_defer_remap: false, defer_rate: 0.2 }
     }
     pub fn fresh_rows(&mut self, rng: &mut Rng, cols: &[ColDef], n: usize) -> Vec<Row> {
         (0..n)
@@ -272,7 +274,7 @@ impl Gen {
                         target_rows: *rng.pick(&[5usize, 10, 20, 50, 1000]),
                         materialize: rng.chance(0.8),
                         threshold: *rng.pick(&[0.0f32, 0.1, 0.5, 2.0]),
-                        defer_remap: rng.chance(0.2) && self.allow_defer_remap,
+                        defer_remap: rng.chance(self.defer_rate) && self.allow_defer_remap,
                     };
                 }
                 7 if st.col("vec").is_some() => {
@@ -416,6 +418,10 @@ pub struct Runner {
     pub step: u64,
     /// history contained a column-rewriting (partial schema) merge_insert while an index existed
     pub seen_col_rewrite: bool,
+    /// columns rewritten in place (Update/RewriteColumns) by a partial-schema merge_insert
+    pub rewritten_cols: BTreeSet<String>,
+    /// a compaction with immediate index remap ran while a deferred remap was still pending
+    pub eager_after_defer: bool,
     /// history contained a compaction with deferred index remap while an index existed
     pub seen_defer_remap: bool,
     pub lin: crate::lineage::Lineage,
@@ -505,7 +511,7 @@ impl Runner {
                 history.insert(ds.version().version, st.clone());
                 let mut lin = crate::lineage::Lineage::new();
                 lin.init(&st, ds.version().version);
-                Ok(Self { cfg, rng, w, ctx, ds, st, history, gen, res, next_actor: 100, step: 0, seen_col_rewrite: false, seen_defer_remap: false, lin, recreated: false })
+                Ok(Self { cfg, rng, w, ctx, ds, st, history, gen, res, next_actor: 100, step: 0, seen_col_rewrite: false, rewritten_cols: BTreeSet::new(), eager_after_defer: false, seen_defer_remap: false, lin, recreated: false })
             }
             Err(e) => {
                 res.violate("C11", "create", "create-failed", 0, e);
@@ -517,18 +523,21 @@ impl Runner {
     /// Execute one op on lance and model; record outcome. Returns true if a new version was made.
     pub async fn do_op(&mut self, op: &Op) -> bool {
         let before = self.ds.version().version;
-        if !self.st.indices.is_empty() {
-            match op {
-                Op::Merge { .. } if op.kind() == "merge_partial" => self.seen_col_rewrite = true,
-                Op::Compact { defer_remap: true, .. } => self.seen_defer_remap = true,
-                _ => {}
-            }
-        }
+        self.note_history(op);
         let mut expect = self.st.clone();
         let model_res = model_apply(&mut expect, op, &self.history);
         let r = with_deadline(3600, &op.brief(), exec_op(&self.ctx, &mut self.ds, &self.st, op)).await;
         self.res.script.push(format!("{}: {}", self.step, op.brief()));
         self.res.kinds.push(op.kind().to_string());
+        if std::env::var("VERIF_DEBUG_FRAGS").is_ok() {
+            let frs: Vec<String> = self
+                .ds
+                .get_fragments()
+                .iter()
+                .map(|f| format!("{}:{:?}/{}d{}", f.id(), f.metadata().physical_rows, f.metadata().files.len(), f.metadata().deletion_file.as_ref().map(|d| d.num_deleted_rows.unwrap_or(0)).unwrap_or(0)))
+                .collect();
+            eprintln!("step {} {} -> v{} frags [{}]", self.step, op.brief(), self.ds.version().version, frs.join(" "));
+        }
         match (r, model_res) {
             (Ok(()), Ok(())) => {
                 let after = self.ds.version().version;
@@ -561,6 +570,12 @@ impl Runner {
                 self.res.probe("stop-after-should-fail");
                 false
             }
+            (Err(e), Ok(())) if matches!(op, Op::CreateVectorIndex { .. } | Op::CreateFtsIndex) => {
+                // training a vector / text index may legitimately refuse tiny or empty inputs
+                self.res.probe(&format!("index-build-refused:{}", err_class(&e.to_string()).chars().take(40).collect::<String>()));
+                let _ = self.ds.checkout_latest().await;
+                false
+            }
             (Err(e), Ok(())) => {
                 let msg = e.to_string();
                 let tags = self.history_tags(op, &[]);
@@ -569,6 +584,45 @@ impl Runner {
                 false
             }
         }
+    }
+
+    /// Record the history facts the known-finding preconditions are stated in.
+    pub fn note_history(&mut self, op: &Op) {
+        if let Op::Merge { src_cols, .. } = op {
+            if op.kind() == "merge_partial" {
+                for c in src_cols.iter() {
+                    self.rewritten_cols.insert(c.clone());
+                }
+            }
+        }
+        if !self.st.indices.is_empty() {
+            match op {
+                Op::Merge { .. } if op.kind() == "merge_partial" => self.seen_col_rewrite = true,
+                Op::Compact { defer_remap: true, .. } => self.seen_defer_remap = true,
+                Op::Compact { defer_remap: false, .. } if self.seen_defer_remap => self.eager_after_defer = true,
+                _ => {}
+            }
+        }
+    }
+
+    /// Precondition tags of the known index defects for a query / operation that can use the
+    /// scalar indices on `used` (the predicate's columns that carry an index):
+    /// KF-07 (stable row ids), KF-08 (an index on a column that a partial-schema merge
+    /// rewrote in place), KF-09 (eager index remap while a deferred remap is pending).
+    pub fn idx_tags(&self, used: &BTreeSet<String>) -> String {
+        if used.is_empty() {
+            return String::new();
+        }
+        format!(
+            "{}{}{}",
+            if self.ctx.stable_row_ids { ":stable-row-ids" } else { "" },
+            if used.iter().any(|c| self.rewritten_cols.contains(c)) { ":after-column-rewrite" } else { "" },
+            if self.eager_after_defer { ":eager-remap-after-deferred" } else { "" }
+        )
+    }
+
+    pub fn used_index_cols(&self, pc: &BTreeSet<String>, extra_indexed: &[String]) -> BTreeSet<String> {
+        pc.iter().filter(|c| self.st.indices.iter().any(|i| &i.column == *c) || extra_indexed.contains(c)).cloned().collect()
     }
 
     /// Tags describing known-defect preconditions for an operation whose predicate can be
@@ -587,11 +641,7 @@ impl Runner {
         if let Op::Merge { use_index: true, .. } = op {
             pc.insert("k".to_string());
         }
-        let indexed = self.st.indices.iter().any(|i| pc.contains(&i.column)) || extra_indexed.iter().any(|c| pc.contains(c));
-        if !indexed {
-            return String::new();
-        }
-        format!("{}{}{}", if self.ctx.stable_row_ids { ":stable-row-ids" } else { "" }, if self.seen_col_rewrite { ":after-column-rewrite" } else { "" }, if self.seen_defer_remap { ":defer-remap" } else { "" })
+        self.idx_tags(&self.used_index_cols(&pc, extra_indexed))
     }
 
     // ---- oracles -----------------------------------------------------------
@@ -630,7 +680,7 @@ impl Runner {
         let sql = p.sql();
         let neg = sql.contains("NOT (") || sql.contains("<>");
         let zone_based = kinds.iter().any(|k| k == "ZoneMap" || k == "BloomFilter");
-        let tag = format!("{}{}{}{}", if has_not_over_in_conjunction(&p, false) { "not-over-in-conjunction:" } else { "" }, if kinds.is_empty() { "noindex".to_string() } else { kinds.join("+") }, if neg && !kinds.is_empty() { ":negation" } else { "" }, if !kinds.is_empty() && self.ctx.stable_row_ids { ":stable-row-ids" } else { "" }).to_string() + if !kinds.is_empty() && self.seen_col_rewrite { ":after-column-rewrite" } else { "" } + if !kinds.is_empty() && self.seen_defer_remap { ":defer-remap" } else { "" };
+        let tag = format!("{}{}{}{}", if has_not_over_in_conjunction(&p, false) { "not-over-in-conjunction:" } else { "" }, if kinds.is_empty() { "noindex".to_string() } else { kinds.join("+") }, if neg && !kinds.is_empty() { ":negation" } else { "" }, "").to_string() + &self.idx_tags(&self.used_index_cols(&pc, &[]));
         match self.ds.count_rows(Some(p.sql())).await {
             Ok(n) if n == expect => {}
             Ok(n) => self.res.violate("C16", "O-count", &format!("count-filter-mismatch:{}", tag), self.step, format!("count_rows({})={} model={}", p.sql(), n, expect)),
@@ -702,8 +752,19 @@ impl Runner {
                 names.dedup();
                 let mut exp: Vec<String> = self.st.indices.iter().map(|i| i.name.clone()).collect();
                 exp.sort();
-                if names != exp {
+                // lance drops an index whose fragments are all gone; anything else must match
+                let unknown: Vec<&String> = names.iter().filter(|n| !exp.contains(n)).collect();
+                if !unknown.is_empty() {
                     self.res.violate("C05", "O-validate", "index-list", self.step, format!("indices {:?} model {:?}", names, exp));
+                } else if names != exp {
+                    let live_frags: BTreeSet<u32> = m.fragments.iter().map(|f| f.id as u32).collect();
+                    for gone in exp.iter().filter(|n| !names.contains(n)) {
+                        // legitimate only if no fragment the index covered is still alive: cannot be
+                        // verified once the metadata is gone, so the model follows lance here
+                        let _ = &live_frags;
+                        self.st.indices.retain(|i| &i.name != gone);
+                        self.res.probe("index-dropped-by-lance");
+                    }
                 }
             }
             Err(e) => self.res.violate("C05", "O-validate", "load-indices-error", self.step, format!("load_indices failed: {}", e)),
@@ -822,7 +883,15 @@ impl Runner {
                         let class = if missing == 0 && neg && all_extra_null { "negation-keeps-null-rows" } else if missing > 0 { "drops-rows" } else { "extra-rows" };
                         let zone_based = kinds.iter().any(|k| k == "ZoneMap" || k == "BloomFilter");
                         let _ = zone_based;
-                        let stable = format!("{}{}{}", if self.ctx.stable_row_ids { ":stable-row-ids" } else { "" }, if self.seen_col_rewrite { ":after-column-rewrite" } else { "" }, if self.seen_defer_remap { ":defer-remap" } else { "" });
+                        if std::env::var("VERIF_DEBUG_FRAGS").is_ok() {
+                            let party = self.fresh_party();
+                            let ctx = self.ctx.for_party(party);
+                            if let Ok(ds2) = ctx.open().await {
+                                let on2 = scan(&ds2, &ScanOpts { filter: Some(sql.clone()), use_scalar_index: Some(true), ..Default::default() }).await;
+                                eprintln!("step {} filter {} : fresh-open with index agrees with scan: {:?}", self.step, sql, on2.map(|(_, x)| sorted(&x) == sorted(&b)).map_err(|e| e.to_string()));
+                            }
+                        }
+                        let stable = self.idx_tags(&self.used_index_cols(&pcols, &[]));
                         self.res.violate(prop, "O-index-diff", &format!("index-vs-scan:{}:{}{}", class, kinds.join("+"), stable), self.step, format!("filter `{}` kinds {:?}: with index {}", sql, kinds, diff_rows(&b, &a)));
                     } else if sorted(&b) != sorted(&expect) {
                         let t = if has_not_over_in_conjunction(&p, false) { "filter-vs-model:not-over-in-conjunction" } else { "filter-vs-model" };
@@ -1004,6 +1073,11 @@ pub async fn run_seq(cfg: RunCfg) -> RunResult {
         "C13" => {
             r.gen.inexact_indices = false;
             r.gen.allow_defer_remap = true;
+            r.gen.defer_rate = *r.rng.pick(&[0.0f64, 0.2, 0.5, 0.95]);
+            // deferred remap on a stable-row-id table panics at once (KF-03): keep it rare
+            if r.ctx.stable_row_ids && !r.rng.chance(0.1) {
+                r.gen.defer_rate = 0.0;
+            }
         }
         // inexact (zone / n-gram) indices are exercised by C20's check only
         _ => r.gen.inexact_indices = false,
@@ -1078,7 +1152,8 @@ pub async fn run_seq(cfg: RunCfg) -> RunResult {
         .await;
         if let Err(p) = outcome {
             let prop = prop_for_op(&op);
-            r.res.violate(prop, "panic", &format!("panic:{}", panic_sig(&p)), step, format!("panic during/after {}: {}", op.brief(), p));
+            let tags = format!("{}{}", if matches!(op, Op::Compact { defer_remap: true, .. }) { ":deferred-compaction" } else { "" }, if r.ctx.stable_row_ids { ":stable-row-ids" } else { "" });
+            r.res.violate(prop, "panic", &format!("panic:{}{}", panic_sig(&p), tags), step, format!("panic during/after {}: {}", op.brief(), p));
         }
         if r.recreated {
             // everything observed after a drop-and-recreate inside one session is attributed to
